@@ -29,7 +29,9 @@ func (r *Rsoa) MarshalText() (text []byte, err error) {
 	w.Write(NSEP)
 	putdomtext(w, r.adm)
 	w.Write(NSEP)
-	if r.ser != 0 {
+	// an empty field reads back as the codec's default serial: a serial 0 may
+	// only be left out when that default is 0 as well
+	if r.ser != 0 || (r.c != nil && r.c.Serial != 0) {
 		fmt.Fprintf(w, "%d", r.ser)
 	}
 	w.Write(NSEP)
